@@ -793,6 +793,25 @@ func lookupReviewed(table map[string]string, key string) (string, bool) {
 	return table[k], true
 }
 
+// reviewedNames: the parameter / receiver / free-variable names of the functions of the universe, by anchor name — used to
+// tell "the parameter was renamed" (the entry's name is gone) from "another parameter of the same function" (it is not)
+var reviewedNames = map[string]map[string]bool{}
+
+func noteFunctionNames(fn *ssa.Function) {
+	n := anchorName(fn)
+	if reviewedNames[n] != nil {
+		return
+	}
+	m := map[string]bool{}
+	for _, p := range fn.Params {
+		m[p.Name()] = true
+	}
+	for _, f := range fn.FreeVars {
+		m[f.Name()] = true
+	}
+	reviewedNames[n] = m
+}
+
 // lookupReviewedKey is lookupReviewed returning the key of the entry that matched
 func lookupReviewedKey(table map[string]string, key string) (string, bool) {
 	if _, ok := table[key]; ok {
@@ -808,6 +827,22 @@ func lookupReviewedKey(table map[string]string, key string) (string, bool) {
 		}
 		sort.Strings(keys)
 		if len(keys) == 1 {
+			// names ignored: the entry must speak of names that no longer exist in that function (renamed), otherwise the
+			// query is about another parameter of the same function — a different site, not covered by this review
+			if i := strings.Index(key, "|"); i > 0 {
+				if cur := reviewedNames[key[:i]]; cur != nil {
+					still := false
+					for _, m := range namedLocal.FindAllString(keys[0], -1) {
+						nm := m[strings.Index(m, ":")+1:]
+						if cur[nm] && !strings.Contains(key, m) {
+							still = true
+						}
+					}
+					if still {
+						return "", false
+					}
+				}
+			}
 			return keys[0], true
 		}
 		if len(keys) > 1 {
